@@ -4,10 +4,10 @@
    a violation is reported as soon as the bytes seen so far determine it, and an incomplete last frame
    is `Pending`.  Definitions only.
 
-   The decoder is parameterised by a `profile`: the two places where "the limit" and "a valid close
-   code" are a matter of reading.  `rfc_profile` is the documented meaning (a message may be as large
-   as max_msg_size; close codes as registered for use on the wire); `aiohttp_profile` is what the code
-   compares with (Generated/WsGen.v).  Props/C12.v proves where they differ. *)
+   The decoder is parameterised by a `profile` (the size comparisons and the close-code table): `rfc_profile` is
+   written by hand from the RFCs and the documented meaning of max_msg_size (a message may be as large as
+   max_msg_size); `aiohttp_profile` is what the code compares with (Generated/WsGen.v).  Proofs/WsRefine.v shows
+   that they coincide, so the refinement theorem is stated for rfc_profile. *)
 From AV Require Import Lib.Base Lib.Utf8Valid Generated.WsGen Model.Ws.
 Open Scope N_scope.
 
@@ -26,14 +26,8 @@ Definition rfc_profile : profile :=
   mkprofile (fun mx n => negb (mx =? 0) && (mx <? n)) (fun mx n => negb (mx =? 0) && (mx <? n)) rfc_close_ok.
 
 Definition aiohttp_profile : profile :=
-  mkprofile (fun mx n => negb (mx =? 0) && (mx <=? n)) inflated_too_big (fun c => negb (close_code_bad c)).
-
-(* The deviations of aiohttp_profile from rfc_profile that are recorded as open findings, written out by hand
-   (independent of Generated/): the harness explains a deviation only by these, so an edit of the code's
-   comparisons is not silently absorbed; Proofs/WsRefine.v shows aiohttp_profile = known_quirks_profile. *)
-Definition known_quirks_profile : profile :=
-  mkprofile (fun mx n => negb (mx =? 0) && (mx <=? n)) (fun mx n => negb (mx =? 0) && (mx <? n))
-            (fun c => rfc_close_ok c || (c =? 1006)).
+  mkprofile (fun mx n => negb (mx =? 0) && size_reject (Z.of_N n) (Z.of_N mx) 0)
+            inflated_too_big (fun c => negb (close_code_bad c)).
 
 Inductive vclass :=
 | VRsv | VOpcode | VCtlFragmented | VCtlTooLong | VLen64 | VTooBig | VContNoMessage | VDataInMessage
